@@ -29,6 +29,21 @@ VANISH1 = ['\\label', '\\index', '\\input', '\\include', '\\pagestyle', '\\thisp
            '\\bibliographystyle', '\\pagenumbering']
 HEADINGS = ['\\section', '\\subsection', '\\subsubsection', '\\chapter', '\\part', '\\title']
 ACCENTS = ["\\'", '\\`', '\\^', '\\"', '\\~', '\\c', '\\v', '\\=', '\\.', '\\u', '\\H', '\\r', '\\k', '\\d', '\\b']
+def _valid_accents():
+    import unicodedata
+    names = {"\\'": 'ACUTE', '\\`': 'GRAVE', '\\^': 'CIRCUMFLEX', '\\v': 'CARON', '\\~': 'TILDE', '\\"': 'DIAERESIS',
+             '\\r': 'RING ABOVE', '\\=': 'MACRON', '\\b': 'LINE BELOW', '\\u': 'BREVE', '\\H': 'DOUBLE ACUTE',
+             '\\.': 'DOT ABOVE', '\\d': 'DOT BELOW', '\\c': 'CEDILLA', '\\k': 'OGONEK'}
+    out = []
+    for a, nm in names.items():
+        for ch in 'aeiouyAEIOUcnszrlCNSZ':
+            try:
+                unicodedata.lookup('LATIN %s LETTER %s WITH %s' % ('SMALL' if ch.islower() else 'CAPITAL', ch.upper(), nm))
+                out.append((a, ch))
+            except KeyError:
+                pass
+    return out
+VALID_ACCENTS = _valid_accents()
 SPECIALS = ['--', '---', '``', "''", '~', '\\,', '\\%', '\\&', '\\$', '\\#', '\\_', '\\{', '\\}', '\\ ', '\\;', '\\:', '\\!', '&']
 SYMBOL_MACROS = ['\\AA', '\\ae', '\\ss', '\\S', '\\LaTeX', '\\TeX', '\\o', '\\L', '\\textbackslash', '\\textasciitilde',
                  '\\quad', '\\hfill', '\\newline', '\\nobreakspace', '\\textasciicircum']
@@ -156,8 +171,8 @@ class G:
         return {'t': 'symbol', 'name': self.rng.choice(SYMBOL_MACROS), 'term': self.rng.choice(['{}', ' ', '\\ ', '{} '])}
 
     def c_accent(self):
-        return {'t': 'accent', 'name': self.rng.choice(ACCENTS), 'letter': self.rng.choice('aeouAEOUcnsz'),
-                'braced': self.rng.random() < 0.5}
+        name, letter = self.rng.choice(VALID_ACCENTS)
+        return {'t': 'accent', 'name': name, 'letter': letter, 'braced': self.rng.random() < 0.5}
 
     def math_body(self, n=None):
         rng = self.rng
